@@ -369,10 +369,10 @@ Qed.
 Definition demo_cat : catalogs := mkCat ["danheng"%string] ["arrows"%string] ["musketeer"%string] ["dummy"%string].
 Definition demo_ok : runspec :=
   RS [Ch "danheng" 80 80 0 [] 1 1 1 1 (LC "arrows" 80 80 1) [Rel "musketeer" 4] 0 100 ""]
-     [En "dummy" 50 1000 18 100 "NONE" 1 100 "PHYSICAL" []] 3 "" 1.
+     [En "dummy" 50 1000 18 100 "NONE" 1 100 "PHYSICAL" [] 0 0] 3 "" 1.
 Definition demo_bad : runspec :=
   RS [Ch "danheng" 80 80 0 [] 1 1 1 1 (LC "nosuchcone" 80 80 1) [] 0 100 ""]
-     [En "dummy" 50 1000 18 100 "NONE" 1 100 "PHYSICAL" []] 3 "" 1.
+     [En "dummy" 50 1000 18 100 "NONE" 1 100 "PHYSICAL" [] 0 0] 3 "" 1.
 
 Definition demo_cfg : config :=
   mkCfg [mkUD 0 true 100 1000 100 0 1 1 TEnemies TEnemies TEnemies [];
